@@ -35,6 +35,8 @@ func RunPlan(t *testing.T, p *Plan, want []string, logw io.Writer) *Result {
 		return runPuppetWorld(t, p, want, logw)
 	case "leader":
 		return runLeaderWorld(t, p, want, logw)
+	case "store":
+		return runStoreWorld(t, p, want, logw)
 	}
 	res := &Result{Seed: p.Seed}
 	start := time.Now()
@@ -188,6 +190,17 @@ func (w *World) applyFault(f Fault) {
 		g := map[int]int{}
 		for i, grp := range f.Groups {
 			for _, a := range grp {
+				if a < 0 {
+					g[a] = i // a twin listed on its own: split brain
+					w.fault("twin-split-partition")
+				}
+			}
+		}
+		for i, grp := range f.Groups {
+			for _, a := range grp {
+				if a < 0 {
+					continue
+				}
 				g[a] = i
 				if _, ok := g[-a]; !ok {
 					g[-a] = i // a twin stays with its primary unless listed separately
@@ -214,6 +227,27 @@ func (w *World) applyFault(f Fault) {
 			nd.crashed = true
 			w.fault("crash")
 			w.logf("FAULT crash n%d", f.Node)
+		}
+	case "restore":
+		if nd := w.primary(f.Node); nd != nil && !nd.crashed {
+			// re-store up to ForMs of the most recent blocks this replica already holds, oldest first
+			var held []*blockInfo
+			for i := len(w.reg.order) - 1; i >= 1 && len(held) < 6; i-- {
+				if _, ok := nd.bc.LocalGet(w.reg.order[i].b.Hash()); ok {
+					held = append(held, w.reg.order[i])
+				}
+			}
+			n := 0
+			for i := len(held) - 1; i >= 0 && n < f.ForMs; i-- {
+				if b, ok := nd.bc.LocalGet(held[i].b.Hash()); ok {
+					nd.bc.Store(b)
+					n++
+				}
+			}
+			if n > 0 {
+				w.fault("block-stored-again")
+				w.logf("FAULT restore n%d stores %d known blocks again", f.Node, n)
+			}
 		}
 	case "slownode":
 		if nd := w.primary(f.Node); nd != nil {
